@@ -1437,22 +1437,23 @@ impl Context {
                             }
                             BinaryOpcode::Compare => Ok(zero),
                             BinaryOpcode::Mod => {
+                                // `div_euclid` starts from the truncated quotient
                                 let e = self.div(v_lhs, v_rhs).unwrap();
-                                let q = self.floor(e).unwrap();
+                                let lo = self.floor(e).unwrap();
+                                let hi = self.ceil(e).unwrap();
+                                let cond = self.less_than(e, zero).unwrap();
+                                let q =
+                                    self.if_nonzero_else(cond, hi, lo).unwrap();
 
-                                // XXX
-                                // (we don't actually have %, so hack it from
-                                // `modulo`, which is actually `rem_euclid`)
-                                // ???
-                                let m = self.modulo(q, v_rhs).unwrap();
-                                let cond = self.less_than(q, zero).unwrap();
-                                let offset = self
-                                    .if_nonzero_else(cond, v_rhs, zero)
-                                    .unwrap();
-                                let m = self.sub(m, offset).unwrap();
+                                // We don't actually have %, but `lhs % rhs`
+                                // is negative exactly when `lhs` is negative
+                                // and `modulo` (which is `rem_euclid`) is not 0
+                                let m = self.modulo(v_lhs, v_rhs).unwrap();
+                                let m = self.less_than(zero, m).unwrap();
+                                let cond = self.less_than(v_lhs, zero).unwrap();
 
                                 // Torn from the div_euclid implementation
-                                let outer = self.less_than(m, zero).unwrap();
+                                let outer = self.and(cond, m).unwrap();
                                 let inner =
                                     self.less_than(zero, v_rhs).unwrap();
                                 let qa = self.sub(q, 1.0).unwrap();
